@@ -346,8 +346,6 @@ int main(int argc, char **argv)
   std::vector<int> ks;
   ks.push_back(37);
   if (vr::thorough()) {
-    ks.push_back(1);
-    ks.push_back(101);
     ks.push_back(255);
   }
   const int nshards = NFMT * N * N;
